@@ -26,6 +26,10 @@ CHECKS = {
    technique="bounded symbolic execution of the real Go parser/evaluator/printer (go/ssa -> SMT bit-vectors) on symbolic constraint text and a symbolic tag truth table; z3 decides equivalence with a reference Boolean evaluator per path; counterexamples replayed natively",
    text="buildtag.Parse (splitWaBuild, parseExpr, or/and/not/atom, lex), Expr.Eval and Expr.String run symbolically on '#wa:build ' followed by every string of up to 4 (quick) / 6 (thorough) bytes over the alphabet {space ( ) ! & | a b c}, with the tag assignment a symbolic 16-bit truth table: the parser accepts iff an independent precedence-climbing reference accepts, Eval equals the reference value for every assignment, and the printed form parses again to an equivalent expression. A second harness feeds up to 2 (quick) / 3 (thorough) completely arbitrary bytes (no panic; accept iff well-formed for ASCII), a third decides IsWaBuild's prefix rule. Right level: a small recursive-descent parser whose interesting inputs (precedence, parentheses, '!!', dangling operators) all occur within a few bytes.",
    note="Trusted: the reference evaluator in the harness, go/ssa, the executor (validated per run by native replay of path models), z3 5.1.0. The tag truth table is indexed by a hash of the tag text (tags with equal hash share a value on both sides). Longer lines, the loader's file selection (isSkipedAstFile, directory walk) and non-ASCII tag letters beyond 3 bytes are outside the bound."),
+ "C25": dict(engine=E1, category="model_checking", design="DESIGN.md#C25",
+   technique="bounded symbolic execution of the real Go writer/reader (go/ssa -> SMT bit-vectors, real bytes.Buffer code) over symbolic payload bytes and a symbolic stall position of the transport; z3 decides every path's delivery assertion; counterexamples replayed natively",
+   text="slip.Writer.WritePacket and slip.Reader.ReadPacket run symbolically on 1 or 2 packets of 1..3 fully symbolic bytes each (all 24 length/stall cases): the packets read back are the packets written, in order, both with a transport that never stalls and with one that returns (0, nil) once at any read index (prefix fragments concatenated as SlipMuxReader does). SlipMuxWriter/SlipMuxReader: symbolic frame byte in each class (diagnostic, IPv4, IPv6, other valid) with 0..2 symbolic payload bytes, and a 4-byte CoAP message with one symbolic byte through the real FCS-16 append/check; frame type and payload are delivered. FCS-16: one table step equals the bitwise CRC-16/X-25 step for all 2^24 (fcs, byte) pairs.",
+   note="Trusted: go/ssa, the executor (validated per run by native replay of path models), z3 5.1.0; sync.Mutex is a no-op. The reader requests one byte per Read, so chunking of the stream is unobservable apart from zero-length reads, which are modelled explicitly. Longer packets, more than two packets, more than one stall, and CRC reasoning over fully symbolic CoAP messages are outside the bound."),
  # ---CHECKS-END---
 }
 NA = {
